@@ -7,6 +7,7 @@ import (
 	"math/rand"
 	"os"
 	"path/filepath"
+	"strings"
 	"time"
 
 	"github.com/akrennmair/updog"
@@ -32,7 +33,7 @@ var (
 	bucketKinds  = []string{"ok", "absent", "other-name"}
 	schemaKinds  = []string{"ok", "absent", "empty", "trunc-1", "trunc-2", "trunc-5", "trunc-10", "trunc-half", "trunc-last3", "trunc-last1", "trunc-20", "bitflip", "other-gob-type", "garbage"}
 	counterKinds = []string{"ok", "absent", "len0", "len1", "len2", "len3", "len5", "len8"}
-	bitmapKinds  = []string{"ok", "one-truncated", "all-truncated", "garbage", "empty"}
+	bitmapKinds  = []string{"ok", "one-truncated", "all-truncated", "garbage", "empty", "short-key", "long-key", "foreign-key"}
 )
 
 // mustFail: the property lists these as damage that must be reported as an error.
@@ -56,6 +57,9 @@ func (d damage) mustFail(preload bool) bool {
 func (d damage) mayFail(preload bool) bool {
 	if d.schema == "bitflip" || d.schema == "other-gob-type" || d.schema == "garbage" {
 		return true
+	}
+	if d.bitmaps == "foreign-key" {
+		return false // keys that are not bitmap entries do not make the file incomplete
 	}
 	return preload && d.bitmaps != "ok"
 }
@@ -105,7 +109,18 @@ func applyDamage(path string, d damage, rng *rand.Rand) error {
 			n := map[string]int{"len0": 0, "len1": 1, "len2": 2, "len3": 3, "len5": 5, "len8": 8}[d.counter]
 			_ = b.Put([]byte("I"), make([]byte, n))
 		}
-		if d.bitmaps != "ok" {
+		switch d.bitmaps {
+		case "short-key":
+			// a bitmap entry whose key is shorter than 'V' + 8 bytes
+			_ = b.Put([]byte{'V', 1, 2, 3}, []byte{0x3a, 0x30, 0, 0, 0, 0, 0, 0})
+			_ = b.Put([]byte{'V'}, []byte{})
+		case "long-key":
+			_ = b.Put(append([]byte{'V'}, bytes.Repeat([]byte{7}, 12)...), []byte{0x3a, 0x30, 0, 0, 0, 0, 0, 0})
+		case "foreign-key":
+			_ = b.Put([]byte("X-unknown"), []byte("whatever"))
+			_ = b.Put([]byte{0}, []byte{1})
+		}
+		if d.bitmaps != "ok" && !strings.HasSuffix(d.bitmaps, "-key") {
 			c := b.Cursor()
 			var keys [][]byte
 			for k, _ := c.Seek([]byte("V")); k != nil && bytes.HasPrefix(k, []byte("V")); k, _ = c.Next() {
